@@ -1,4 +1,455 @@
 /- Proofs/Json.lean — helper lemmas for Props/C05.lean -/
 import PM.Json
 namespace PM
+
+/-! ### `J.get` on association lists -/
+
+theorem J.get_nil (k : String) : J.get (.obj []) k = none := by
+  simp [J.get]
+
+theorem J.get_cons_eq (k : String) (v : J) (rest : List (String × J)) :
+    J.get (.obj ((k, v) :: rest)) k = some v := by
+  simp [J.get, List.find?]
+
+theorem J.get_cons_ne {k k' : String} (h : k' ≠ k) (v : J) (rest : List (String × J)) :
+    J.get (.obj ((k', v) :: rest)) k = J.get (.obj rest) k := by
+  have hb : (k' == k) = false := by simp [h]
+  simp only [J.get, List.find?_cons, hb]
+
+theorem J.get_append_skip {k : String} (l₁ l₂ : List (String × J))
+    (h : ∀ p, p ∈ l₁ → p.1 ≠ k) : J.get (.obj (l₁ ++ l₂)) k = J.get (.obj l₂) k := by
+  induction l₁ with
+  | nil => rfl
+  | cons p l ih =>
+    obtain ⟨k', v⟩ := p
+    have hk : k' ≠ k := h (k', v) (by simp)
+    rw [List.cons_append, J.get_cons_ne hk]
+    exact ih (fun q hq => h q (by simp [hq]))
+
+/-! ### attributes -/
+
+theorem attrsOfJ_attrsToJ (a : Attrs) : attrsOfJ (some (attrsToJ a)) = a := by
+  simp only [attrsOfJ, attrsToJ]
+  induction a with
+  | nil => rfl
+  | cons p l ih => obtain ⟨k, v⟩ := p; simp [ih]
+
+theorem computeAttrs_nil (given : Attrs) : computeAttrs [] given = .ok [] := rfl
+
+theorem computeAttrs_cons (d : AttrDecl) (ds : List AttrDecl) (given : Attrs) :
+    computeAttrs (d :: ds) given =
+      match computeAttrs ds given with
+      | .error e => .error e
+      | .ok rest =>
+        match (given.find? (·.1 == d.name)).map (·.2) with
+        | some v => if v != "null" then .ok ((d.name, v) :: rest)
+                    else if d.hasDefault then .ok ((d.name, d.default) :: rest) else .error .valueError
+        | none => if d.hasDefault then .ok ((d.name, d.default) :: rest) else .error .valueError := by
+  rfl
+
+theorem computeAttrs_ok_aux (given : Attrs) : ∀ (decls : List AttrDecl) (a : Attrs),
+    a.map (·.1) = decls.map (·.name) →
+    (∀ p, p ∈ a → given.find? (·.1 == p.1) = some p) →
+    (∀ d, d ∈ decls → ∀ v, (d.name, v) ∈ a → v = "null" → d.hasDefault = true ∧ d.default = "null") →
+    computeAttrs decls given = .ok a
+  | [], a, hm, _, _ => by
+    cases a with
+    | nil => rfl
+    | cons p l => simp at hm
+  | d :: ds, a, hm, hf, hn => by
+    cases a with
+    | nil => simp at hm
+    | cons p l =>
+      obtain ⟨k, v⟩ := p
+      simp only [List.map_cons, List.cons.injEq] at hm
+      obtain ⟨hk, hm'⟩ := hm
+      subst hk
+      have ih := computeAttrs_ok_aux given ds l hm' (fun p hp => hf p (by simp [hp]))
+        (fun d' hd' v' hv' => hn d' (by simp [hd']) v' (by simp [hv']))
+      have hfind := hf (d.name, v) (by simp)
+      simp only at hfind
+      rw [computeAttrs_cons, ih]
+      simp only [hfind, Option.map_some]
+      by_cases hv : v = "null"
+      · obtain ⟨h1, h2⟩ := hn d (by simp) v (by simp) hv
+        simp [hv, h1, h2]
+      · simp [hv]
+
+theorem find?_key_of_nodup : ∀ (a : Attrs), (a.map (·.1)).Nodup →
+    ∀ p, p ∈ a → a.find? (·.1 == p.1) = some p
+  | [], _, p, hp => by simp at hp
+  | q :: l, hnd, p, hp => by
+    simp only [List.map_cons, List.nodup_cons] at hnd
+    rcases List.mem_cons.mp hp with rfl | hp'
+    · simp [List.find?]
+    · have hne : q.1 ≠ p.1 := by
+        intro e
+        exact hnd.1 (e ▸ List.mem_map_of_mem hp')
+      have hb : (q.1 == p.1) = false := by simp [hne]
+      rw [List.find?_cons, hb]
+      exact find?_key_of_nodup l hnd.2 p hp'
+
+theorem computeAttrs_ok (decls : List AttrDecl) (a : Attrs)
+    (hm : a.map (·.1) = decls.map (·.name)) (hnd : (decls.map (·.name)).Nodup)
+    (hn : ∀ d, d ∈ decls → ∀ v, (d.name, v) ∈ a → v = "null" → d.hasDefault = true ∧ d.default = "null") :
+    computeAttrs decls a = .ok a :=
+  computeAttrs_ok_aux a decls a hm (find?_key_of_nodup a (hm ▸ hnd)) hn
+
+/-! ### marks -/
+
+theorem markOfJ_markToJ (S : Schema) (m : Mark) (hfind : S.findMark (S.markName m.ty) = some m.ty)
+    (hattrs : computeAttrs (S.markType m.ty).attrs m.attrs = .ok m.attrs) :
+    S.markOfJ (S.markToJ m) = .ok m := by
+  have h1 : (S.markToJ m).get "type" = some (.str (S.markName m.ty)) := by
+    simp only [Schema.markToJ]; exact J.get_cons_eq _ _ _
+  have h2 : (S.markToJ m).get "attrs" = some (attrsToJ m.attrs) := by
+    simp only [Schema.markToJ]
+    rw [J.get_cons_ne (by decide), J.get_cons_eq]
+  have h3 : (S.markToJ m).truthy = true := by simp [Schema.markToJ, J.truthy]
+  simp only [Schema.markOfJ, h1, h2, h3, hfind, attrsOfJ_attrsToJ, hattrs]
+  rfl
+
+theorem mapM_markOfJ (S : Schema) : ∀ (ms : Marks), (∀ m, m ∈ ms → S.markOfJ (S.markToJ m) = .ok m) →
+    (ms.map S.markToJ).mapM S.markOfJ = .ok ms
+  | [], _ => rfl
+  | m :: ms, h => by
+    have ih := mapM_markOfJ S ms (fun m' hm' => h m' (by simp [hm']))
+    simp only [List.map_cons, List.mapM_cons, h m (by simp), ih]
+    rfl
+
+theorem get_marksField_other (S : Schema) (ms : Marks) {k : String} (hk : k ≠ "marks")
+    (rest : List (String × J)) :
+    J.get (.obj (S.marksField ms ++ rest)) k = J.get (.obj rest) k := by
+  apply J.get_append_skip
+  intro p hp
+  unfold Schema.marksField at hp
+  split at hp
+  · simp at hp
+  · simp at hp; subst hp; exact fun e => hk e.symm
+
+theorem marksOfJ_marksField (S : Schema) (ms : Marks) (rest : List (String × J))
+    (hm : (ms.map S.markToJ).mapM S.markOfJ = .ok ms) (hs : setFrom ms = ms)
+    (hrest : J.get (.obj rest) "marks" = none) :
+    S.marksOfJ (J.get (.obj (S.marksField ms ++ rest)) "marks") = .ok ms := by
+  unfold Schema.marksField
+  cases ms with
+  | nil => simp [hrest, Schema.marksOfJ]
+  | cons m l =>
+    simp only [List.isEmpty_cons, Bool.false_eq_true, if_false, List.cons_append, J.get_cons_eq]
+    simp only [Schema.marksOfJ, J.truthy, List.map_cons, List.isEmpty_cons] 
+    simp only [List.map_cons] at hm
+    simp only [hm, Bool.not_false, Bool.not_true, Bool.false_eq_true, if_false, Except.map, hs]
+
+/-! ### node decoding, by fields -/
+
+theorem nodeOfJ_text (S : Schema) (fuel : Nat) (kv : List (String × J)) (marks : Marks) (u : List Nat)
+    (hne : kv ≠ []) (hm : S.marksOfJ ((J.obj kv).get "marks") = .ok marks)
+    (ht : (J.obj kv).get "type" = some (.str "text"))
+    (hx : (J.obj kv).get "text" = some (.text u)) (hu : u ≠ []) :
+    S.nodeOfJ (fuel + 1) (.obj kv) = .ok (.text u marks) := by
+  have h1 : kv.isEmpty = false := by cases kv <;> simp_all
+  have h2 : u.isEmpty = false := by cases u <;> simp_all
+  simp only [Schema.nodeOfJ, h1, hm, ht, hx, h2]
+  simp
+
+theorem nodeOfJ_typed (S : Schema) (fuel : Nat) (kv : List (String × J)) (marks : Marks) (name : String)
+    (t : TypeId) (a : Attrs) (kids : List Node)
+    (hne : kv ≠ []) (hm : S.marksOfJ ((J.obj kv).get "marks") = .ok marks)
+    (ht : (J.obj kv).get "type" = some (.str name)) (hname : name ≠ "text")
+    (hfind : S.findNode name = some t)
+    (hc : ((J.obj kv).get "content" = none ∧ kids = []) ∨
+          ∃ l, (J.obj kv).get "content" = some (.arr l) ∧ S.kidsOfJ fuel l = .ok kids)
+    (ha : computeAttrs (S.nodeType t).attrs (attrsOfJ ((J.obj kv).get "attrs")) = .ok a) :
+    S.nodeOfJ (fuel + 1) (.obj kv) =
+      if (S.nodeType t).isLeaf then .ok (.leaf t a marks) else .ok (.elem t a marks kids) := by
+  have h1 : kv.isEmpty = false := by cases kv <;> simp_all
+  simp only [Schema.nodeOfJ, h1, hm, ht]
+  simp only [Bool.false_eq_true, if_false, hfind]
+  rcases hc with ⟨hc, rfl⟩ | ⟨l, hc, hk⟩
+  · simp only [hc, ha]
+  · simp only [hc, hk, ha]
+
+
+theorem get_optField_other {k k' : String} (hk : k' ≠ k) (c : Prop) [Decidable c] (v : J)
+    (rest : List (String × J)) :
+    J.get (.obj ((if c then [] else [(k', v)]) ++ rest)) k = J.get (.obj rest) k := by
+  split
+  · rfl
+  · exact J.get_cons_ne hk v rest
+
+theorem get_optField_same (k : String) (c : Prop) [Decidable c] (v : J) (rest : List (String × J)) :
+    J.get (.obj ((if c then [] else [(k, v)]) ++ rest)) k = if c then J.get (.obj rest) k else some v := by
+  split
+  · rfl
+  · exact J.get_cons_eq k v rest
+
+theorem marksOfJ_marksField' (S : Schema) (ms : Marks)
+    (hm : (ms.map S.markToJ).mapM S.markOfJ = .ok ms) (hs : setFrom ms = ms) :
+    S.marksOfJ (J.get (.obj (S.marksField ms)) "marks") = .ok ms := by
+  have := marksOfJ_marksField S ms [] hm hs (J.get_nil _)
+  rwa [List.append_nil] at this
+
+/-- shape of an encoded element -/
+theorem nodeToJ_elem (S : Schema) (t : TypeId) (a : Attrs) (m : Marks) (kids : List Node) :
+    S.nodeToJ (.elem t a m kids) = .obj (("type", .str (S.nodeName t)) ::
+      ((if a.isEmpty then [] else [("attrs", attrsToJ a)]) ++
+       ((if fsize kids = 0 then [] else [("content", .arr (S.kidsToJ kids))]) ++ S.marksField m))) := by
+  simp only [Schema.nodeToJ, List.append_assoc, List.cons_append, List.nil_append]
+
+theorem nodeToJ_leaf (S : Schema) (t : TypeId) (a : Attrs) (m : Marks) :
+    S.nodeToJ (.leaf t a m) = .obj (("type", .str (S.nodeName t)) ::
+      ((if a.isEmpty then [] else [("attrs", attrsToJ a)]) ++ S.marksField m)) := by
+  simp only [Schema.nodeToJ, List.cons_append, List.nil_append]
+
+theorem nodeToJ_text (S : Schema) (s : List Nat) (m : Marks) :
+    S.nodeToJ (.text s m) = .obj (("type", .str "text") :: (S.marksField m ++ [("text", .text s)])) := by
+  simp only [Schema.nodeToJ, List.cons_append, List.nil_append]
+
+theorem get_marksField_nomarks (S : Schema) (ms : Marks) {k : String} (hk : k ≠ "marks") :
+    J.get (.obj (S.marksField ms)) k = none := by
+  have := get_marksField_other S ms hk []
+  rwa [List.append_nil, J.get_nil] at this
+
+theorem attrsOfJ_optField (a : Attrs) : attrsOfJ (if a.isEmpty then none else some (attrsToJ a)) = a := by
+  cases a with
+  | nil => rfl
+  | cons p l => simp only [List.isEmpty_cons, Bool.false_eq_true, if_false, attrsOfJ_attrsToJ]
+
+
+theorem nodeOfJ_nodeToJ_text (S : Schema) (fuel : Nat) (s : List Nat) (m : Marks) (hs : s ≠ [])
+    (hm : (m.map S.markToJ).mapM S.markOfJ = .ok m) (hsf : setFrom m = m) :
+    S.nodeOfJ (fuel + 1) (S.nodeToJ (.text s m)) = .ok (.text s m) := by
+  rw [nodeToJ_text]
+  apply nodeOfJ_text S fuel _ m s (by simp) _ _ _ hs
+  · rw [J.get_cons_ne (by decide)]
+    exact marksOfJ_marksField S m _ hm hsf (by rw [J.get_cons_ne (by decide), J.get_nil])
+  · exact J.get_cons_eq _ _ _
+  · rw [J.get_cons_ne (by decide), get_marksField_other S m (by decide), J.get_cons_eq]
+
+theorem nodeOfJ_nodeToJ_leaf (S : Schema) (fuel : Nat) (t : TypeId) (a : Attrs) (m : Marks)
+    (hname : S.nodeName t ≠ "text") (hfind : S.findNode (S.nodeName t) = some t)
+    (hleaf : (S.nodeType t).isLeaf = true)
+    (ha : computeAttrs (S.nodeType t).attrs a = .ok a)
+    (hm : (m.map S.markToJ).mapM S.markOfJ = .ok m) (hsf : setFrom m = m) :
+    S.nodeOfJ (fuel + 1) (S.nodeToJ (.leaf t a m)) = .ok (.leaf t a m) := by
+  rw [nodeToJ_leaf]
+  rw [nodeOfJ_typed S fuel _ m (S.nodeName t) t a [] (by simp) ?_ (J.get_cons_eq _ _ _) hname hfind
+    (Or.inl ⟨?_, rfl⟩) ?_]
+  · rw [hleaf]; rfl
+  · rw [J.get_cons_ne (by decide), get_optField_other (by decide)]
+    exact marksOfJ_marksField' S m hm hsf
+  · rw [J.get_cons_ne (by decide), get_optField_other (by decide)]
+    exact get_marksField_nomarks S m (by decide)
+  · rw [J.get_cons_ne (by decide), get_optField_same, get_marksField_nomarks S m (by decide)]
+    rw [attrsOfJ_optField, ha]
+
+theorem nodeOfJ_nodeToJ_elem (S : Schema) (fuel : Nat) (t : TypeId) (a : Attrs) (m : Marks)
+    (kids : List Node)
+    (hname : S.nodeName t ≠ "text") (hfind : S.findNode (S.nodeName t) = some t)
+    (hleaf : (S.nodeType t).isLeaf = false)
+    (ha : computeAttrs (S.nodeType t).attrs a = .ok a)
+    (hm : (m.map S.markToJ).mapM S.markOfJ = .ok m) (hsf : setFrom m = m)
+    (hk0 : fsize kids = 0 → kids = []) (hkids : S.kidsOfJ fuel (S.kidsToJ kids) = .ok kids) :
+    S.nodeOfJ (fuel + 1) (S.nodeToJ (.elem t a m kids)) = .ok (.elem t a m kids) := by
+  rw [nodeToJ_elem]
+  rw [nodeOfJ_typed S fuel _ m (S.nodeName t) t a kids (by simp) ?_ (J.get_cons_eq _ _ _) hname hfind
+    ?_ ?_]
+  · rw [hleaf]; rfl
+  · rw [J.get_cons_ne (by decide), get_optField_other (by decide), get_optField_other (by decide)]
+    exact marksOfJ_marksField' S m hm hsf
+  · rw [J.get_cons_ne (by decide), get_optField_other (by decide), get_optField_same,
+      get_marksField_nomarks S m (by decide)]
+    by_cases h0 : fsize kids = 0
+    · left; rw [if_pos h0]; exact ⟨rfl, hk0 h0⟩
+    · right; rw [if_neg h0]; exact ⟨_, rfl, hkids⟩
+  · rw [J.get_cons_ne (by decide), get_optField_same, get_optField_other (by decide),
+      get_marksField_nomarks S m (by decide), attrsOfJ_optField, ha]
+
+
+/-! ### fragments, slices -/
+
+theorem kidsOfJ_cons_ok (S : Schema) (fuel : Nat) (j : J) (js : List J) (n : Node) (ns : List Node)
+    (h1 : S.nodeOfJ fuel j = .ok n) (h2 : S.kidsOfJ fuel js = .ok ns) :
+    S.kidsOfJ fuel (j :: js) = .ok (n :: ns) := by
+  simp only [Schema.kidsOfJ, h1, h2]
+
+theorem kidsOfJ_nil (S : Schema) (fuel : Nat) : S.kidsOfJ fuel [] = .ok [] := by
+  simp only [Schema.kidsOfJ]
+
+theorem kidsToJ_nil (S : Schema) : S.kidsToJ [] = [] := by simp only [Schema.kidsToJ]
+theorem kidsToJ_cons (S : Schema) (n : Node) (ns : List Node) :
+    S.kidsToJ (n :: ns) = S.nodeToJ n :: S.kidsToJ ns := by simp only [Schema.kidsToJ]
+
+theorem fsize_nil : fsize [] = 0 := by simp only [fsize]
+theorem fsize_cons (n : Node) (ns : List Node) : fsize (n :: ns) = n.size + fsize ns := by
+  simp only [fsize]
+
+theorem eq_nil_of_fsize_zero (kids : List Node) (h : ∀ k, k ∈ kids → 1 ≤ k.size)
+    (h0 : fsize kids = 0) : kids = [] := by
+  cases kids with
+  | nil => rfl
+  | cons k ks =>
+    have := h k (by simp)
+    rw [fsize_cons] at h0
+    omega
+
+theorem fragOfJ_fragToJ (S : Schema) (fuel : Nat) (l : List Node)
+    (hk : S.kidsOfJ fuel (S.kidsToJ l) = .ok l) : S.fragOfJ fuel (some (S.fragToJ l)) = .ok l := by
+  cases l with
+  | nil => simp [Schema.fragToJ, Schema.fragOfJ, J.truthy]
+  | cons n ns =>
+    rw [kidsToJ_cons] at hk
+    simp [Schema.fragToJ, Schema.fragOfJ, J.truthy, kidsToJ_cons, hk]
+
+theorem sliceOfJ_sliceToJ (S : Schema) (fuel : Nat) (sl : Slice)
+    (h0 : fsize sl.content = 0 → sl = Slice.empty)
+    (hk : S.kidsOfJ fuel (S.kidsToJ sl.content) = .ok sl.content) :
+    S.sliceOfJ fuel (some (S.sliceToJ sl)) = .ok sl := by
+  unfold Schema.sliceToJ
+  by_cases hz : fsize sl.content = 0
+  · rw [if_pos hz, h0 hz]; simp [Schema.sliceOfJ, J.truthy]
+  · rw [if_neg hz]
+    obtain ⟨c, os, oe⟩ := sl
+    simp only [List.cons_append, List.nil_append]
+    have hc : ∀ rest, J.get (.obj (("content", S.fragToJ c) :: rest)) "content" = some (S.fragToJ c) :=
+      fun rest => J.get_cons_eq _ _ _
+    have hfr := fragOfJ_fragToJ S fuel c hk
+    by_cases h1 : os > 0 <;> by_cases h2 : oe > 0 <;>
+      simp [Schema.sliceOfJ, J.truthy, h1, h2, J.get, List.find?, hfr, Except.map]
+    all_goals omega
+
+
+/-! ### steps -/
+
+theorem natOfJ_num (n : Nat) : natOfJ (some (.num (n : Int))) = some n := by
+  simp [natOfJ]
+
+theorem boolOfJ_structField (b : Bool) (k : String) (hk : k = "structure") :
+    boolOfJ (J.get (.obj (structField b)) k) = b := by
+  subst hk
+  cases b <;> simp [structField, boolOfJ, J.get, J.truthy]
+
+theorem get_structField_other (b : Bool) {k : String} (hk : k ≠ "structure") :
+    J.get (.obj (structField b)) k = none := by
+  cases b
+  · simp [structField, J.get]
+  · simp only [structField, if_true]; rw [J.get_cons_ne (fun e => hk e.symm), J.get_nil]
+
+theorem sliceOfJ_sliceField (S : Schema) (fuel : Nat) (sl : Slice) (b : Bool)
+    (h0 : fsize sl.content = 0 → sl = Slice.empty)
+    (hk : S.kidsOfJ fuel (S.kidsToJ sl.content) = .ok sl.content) :
+    S.sliceOfJ fuel (J.get (.obj ((if fsize sl.content ≠ 0 then [("slice", S.sliceToJ sl)] else []) ++ structField b)) "slice")
+      = .ok sl := by
+  by_cases hz : fsize sl.content = 0
+  · simp only [hz, ne_eq, not_true_eq_false, if_false, List.nil_append]
+    rw [get_structField_other b (by decide), h0 hz]; rfl
+  · simp only [hz, ne_eq, not_false_eq_true, if_true, List.cons_append, J.get_cons_eq]
+    exact sliceOfJ_sliceToJ S fuel sl h0 hk
+
+theorem structure_sliceField (S : Schema) (sl : Slice) (b : Bool) :
+    boolOfJ (J.get (.obj ((if fsize sl.content ≠ 0 then [("slice", S.sliceToJ sl)] else []) ++ structField b)) "structure")
+      = b := by
+  split
+  · rw [List.cons_append, J.get_cons_ne (by decide), List.nil_append]; exact boolOfJ_structField b _ rfl
+  · exact boolOfJ_structField b _ rfl
+
+theorem stepOfJ_replace (S : Schema) (fuel : Nat) (f t : Nat) (sl : Slice) (b : Bool)
+    (h0 : fsize sl.content = 0 → sl = Slice.empty)
+    (hk : S.kidsOfJ fuel (S.kidsToJ sl.content) = .ok sl.content) :
+    S.stepOfJ fuel (S.stepToJ (.replace f t sl b)) = .ok (.replace f t sl b) := by
+  simp only [Schema.stepToJ, List.cons_append, List.nil_append]
+  unfold Schema.stepOfJ
+  rw [J.get_cons_eq]
+  simp only [J.get_cons_ne (k := "from") (k' := "stepType") (by decide), J.get_cons_eq,
+    J.get_cons_ne (k := "to") (k' := "stepType") (by decide),
+    J.get_cons_ne (k := "to") (k' := "from") (by decide),
+    J.get_cons_ne (k := "slice") (k' := "stepType") (by decide),
+    J.get_cons_ne (k := "slice") (k' := "from") (by decide),
+    J.get_cons_ne (k := "slice") (k' := "to") (by decide),
+    J.get_cons_ne (k := "structure") (k' := "stepType") (by decide),
+    J.get_cons_ne (k := "structure") (k' := "from") (by decide),
+    J.get_cons_ne (k := "structure") (k' := "to") (by decide),
+    natOfJ_num, sliceOfJ_sliceField S fuel sl b h0 hk, structure_sliceField]
+  simp [stepIds, Except.map]
+
+
+theorem J.get_cons (k k' : String) (v : J) (rest : List (String × J)) :
+    J.get (.obj ((k', v) :: rest)) k = if k' = k then some v else J.get (.obj rest) k := by
+  by_cases h : k' = k
+  · subst h; rw [if_pos rfl, J.get_cons_eq]
+  · rw [if_neg h, J.get_cons_ne h]
+
+theorem stepOfJ_replaceAround (S : Schema) (fuel : Nat) (f t gf gt : Nat) (sl : Slice) (ins : Nat) (b : Bool)
+    (h0 : fsize sl.content = 0 → sl = Slice.empty)
+    (hk : S.kidsOfJ fuel (S.kidsToJ sl.content) = .ok sl.content) :
+    S.stepOfJ fuel (S.stepToJ (.replaceAround f t gf gt sl ins b)) = .ok (.replaceAround f t gf gt sl ins b) := by
+  simp only [Schema.stepToJ, List.cons_append, List.nil_append]
+  unfold Schema.stepOfJ
+  simp only [J.get_cons, String.reduceEq, if_true, if_false,
+    natOfJ_num, sliceOfJ_sliceField S fuel sl b h0 hk, structure_sliceField]
+  simp [stepIds, Except.map]
+
+theorem stepOfJ_addMark (S : Schema) (fuel : Nat) (f t : Nat) (m : Mark)
+    (hm : S.markOfJ (S.markToJ m) = .ok m) :
+    S.stepOfJ fuel (S.stepToJ (.addMark f t m)) = .ok (.addMark f t m) := by
+  simp only [Schema.stepToJ]
+  unfold Schema.stepOfJ
+  simp only [J.get_cons, String.reduceEq, if_true, if_false, natOfJ_num, hm]
+  simp [stepIds, Except.map]
+
+theorem stepOfJ_removeMark (S : Schema) (fuel : Nat) (f t : Nat) (m : Mark)
+    (hm : S.markOfJ (S.markToJ m) = .ok m) :
+    S.stepOfJ fuel (S.stepToJ (.removeMark f t m)) = .ok (.removeMark f t m) := by
+  simp only [Schema.stepToJ]
+  unfold Schema.stepOfJ
+  simp only [J.get_cons, String.reduceEq, if_true, if_false, natOfJ_num, hm]
+  simp [stepIds, Except.map]
+
+theorem stepOfJ_addNodeMark (S : Schema) (fuel : Nat) (p : Nat) (m : Mark)
+    (hm : S.markOfJ (S.markToJ m) = .ok m) :
+    S.stepOfJ fuel (S.stepToJ (.addNodeMark p m)) = .ok (.addNodeMark p m) := by
+  simp only [Schema.stepToJ]
+  unfold Schema.stepOfJ
+  simp only [J.get_cons, String.reduceEq, if_true, if_false, natOfJ_num, hm]
+  simp [stepIds, Except.map]
+
+theorem stepOfJ_removeNodeMark (S : Schema) (fuel : Nat) (p : Nat) (m : Mark)
+    (hm : S.markOfJ (S.markToJ m) = .ok m) :
+    S.stepOfJ fuel (S.stepToJ (.removeNodeMark p m)) = .ok (.removeNodeMark p m) := by
+  simp only [Schema.stepToJ]
+  unfold Schema.stepOfJ
+  simp only [J.get_cons, String.reduceEq, if_true, if_false, natOfJ_num, hm]
+  simp [stepIds, Except.map]
+
+theorem stepOfJ_attr (S : Schema) (fuel : Nat) (p : Nat) (n v : String) :
+    S.stepOfJ fuel (S.stepToJ (.attr p n v)) = .ok (.attr p n v) := by
+  simp only [Schema.stepToJ]
+  unfold Schema.stepOfJ
+  simp only [J.get_cons, String.reduceEq, if_true, if_false, natOfJ_num]
+  simp [stepIds]
+
+theorem stepOfJ_docAttr (S : Schema) (fuel : Nat) (n v : String) :
+    S.stepOfJ fuel (S.stepToJ (.docAttr n v)) = .ok (.docAttr n v) := by
+  simp only [Schema.stepToJ]
+  unfold Schema.stepOfJ
+  simp only [J.get_cons, String.reduceEq, if_true, if_false]
+  simp [stepIds]
+
+theorem stepIds_nodup : stepIds.Nodup ∧ stepIds.length = 8 := by
+  simp [stepIds]
+
+theorem stepToJ_stepType (S : Schema) (st : Step) :
+    ∃ name, (S.stepToJ st).get "stepType" = some (.str name) ∧ name ∈ stepIds := by
+  cases st <;> simp only [Schema.stepToJ, List.cons_append, J.get_cons_eq] <;>
+    exact ⟨_, rfl, by simp [stepIds]⟩
+
+theorem stepOfJ_unknown_aux (S : Schema) (fuel : Nat) (kv : List (String × J)) (name : String)
+    (h : (J.obj kv).get "stepType" = some (.str name)) (hn : name ∉ stepIds) :
+    S.stepOfJ fuel (J.obj kv) = .error .valueError := by
+  unfold Schema.stepOfJ
+  rw [h]
+  have : stepIds.contains name = false := by simpa using hn
+  simp only [this, Bool.not_false, if_true]
+
+
 end PM
